@@ -163,6 +163,7 @@ _SCALARS = (str, int, float, bool, complex, bytes)
 
 _CAPTURE_SRC = '''
 G = None
+v = "a module global spelled like the closure variable"
 def build_closure(ds, v):
     return ds.Select(lambda e: (e.x, v))
 def build_global(ds):
